@@ -98,6 +98,17 @@ def gen_combo_case(rng):
     return case
 
 
+def gen_crowded_case(rng):
+    """a crowded but feasible box with few tries per molecule (-mi 2): whole-molecule attempts fail and are started
+    over, and every molecule still ends up in the structure"""
+    chain = systems.gen_moltype(rng, 'MA', nres=4, multi_atom=True, shape='path')
+    sol = systems.gen_moltype(rng, 'SOL', nres=1, resnames=['SV'])
+    entries = [('SOL', rng.randint(35, 42)), ('MA', rng.randint(5, 6)), ('SOL', rng.randint(20, 26)), ('MA', rng.randint(2, 3))]
+    return {'moltypes': [chain, sol], 'molecules': entries, 'mode': 'box', 'seed': rng.randrange(10 ** 6),
+            'L': round(rng.uniform(2.6, 2.75), 3), 'L2': 7.0, 'dens': 100.0, 'nsup': 1, 'omit_mass': False,
+            'maxiter': 2, 'grid_spacing': 0.1, 'combo': ['crowded', 'mi2']}
+
+
 def vary_masses(rng, case):
     """[ atoms ] masses that differ from the atom-type mass, and massless particles (virtual sites)"""
     for mt in case['moltypes'][1 if case['omit_mass'] else 0:]:
@@ -166,6 +177,8 @@ def options(case, wd):
                       for z in np.arange(0.5, case['L'], 1.0)])
         np.savetxt(f'{wd}/grid.dat', g)
         kw['grid'] = 'grid.dat'
+    if case.get('grid_spacing'):
+        kw['grid_spacing'] = case['grid_spacing']
     if case.get('cycles'):
         kw['cycles'] = list(case['cycles'])
         kw['cycle_tol'] = 0.3
@@ -204,7 +217,7 @@ def run_case(case, timeout=90):
         return _handle_random_walk
     with systems.Workdir() as wd:
         kw, facts = options(case, wd)
-        res = systems.run_gen_coords(wd, top_of(case), seed=case['seed'], timeout=timeout, maxiter=200,
+        res = systems.run_gen_coords(wd, top_of(case), seed=case['seed'], timeout=timeout, maxiter=case.get('maxiter', 200),
                                      hooks={'polyply.src.build_system:BuildSystem._handle_random_walk': wrap_handle}, **kw)
     res['attempts'] = attempts
     return res, facts
@@ -268,6 +281,7 @@ def run(ctx):
     cases = [c for _, c in core.corpus_cases('C03')]
     cases += [gen_case(ctx.rng) for _ in range(ctx.n(36, 360))]
     cases += [gen_combo_case(ctx.rng) for _ in range(ctx.n(8, 80))]
+    cases += [gen_crowded_case(ctx.rng) for _ in range(ctx.n(2, 12))]
     if ctx.broken:
         cases = cases[:10]
     exprs, keep = [], []
@@ -300,6 +314,8 @@ def run(ctx):
             ctx.violation('spec', f"C03 fails on the implementation: {b}", {'case': case, 'failure': b})
         # the loop: per molecule index a run of failures then one success, indices visited in increasing order
         att = res['attempts']
+        if any(len(o) > 1 for o in att.values()):
+            ctx.feature('runs_with_a_whole_molecule_attempt_started_over')
         for idx, outs in att.items():
             if outs[-1] is not True or any(outs[:-1]):
                 ctx.violation('spec', f"molecule {idx}: attempt outcomes {outs}: the loop moved on without a successful attempt", {'case': case})
